@@ -421,3 +421,96 @@ Proof.
   intros Hid HB. destruct (vt_write_bs ROut 0 id VUndef B [] Hid HB) as (e' & Bs).
   destruct (bsE_sound _ _ _ _ Bs) as (f0 & F). exists f0. intros f Hf. eexists. split; [apply F; exact Hf|]. reflexivity.
 Qed.
+
+(* ================================================================== 32-bit integers (default configuration) *)
+Ltac evi := cbn [eval lookup update set_var String.eqb Ascii.eqb Bool.eqb vars inb outb truth cast binop_int binop_uint is_shift b2z fst snd negb budget_var];
+  change (0 =? 0) with true; change (1 =? 0) with false; cbn [negb b2z].
+Ltac evci := cbn [prog_env eval_args callee_init finish_call copy_in copy_out try_update update lookup combine map app String.append
+                 String.eqb Ascii.eqb Bool.eqb fparams flocals fbody vars inb outb budget_var cell_token List.length Nat.eqb eval set_var cast
+                 prog_sbdf_swap_le prog_sbdf_read_int32 prog_sbdf_write_int32].
+
+Definition ri (fr pr : region) (fo po : Z) (cell bv : val) (s o : list Z) : state :=
+  {| vars := [("f"%string, VPtr fr fo); ("v"%string, VPtr pr po); ("*v"%string, cell); (budget_var, bv)]; inb := s; outb := o |}.
+
+Lemma read_int32_model s : read_int32 false s =
+  match s with
+  | b0 :: b1 :: b2 :: b3 :: r => Ok (de32 [b0; b1; b2; b3], r)
+  | _ => Err SBDF_ERROR_IO
+  end.
+Proof.
+  unfold read_int32, rd_bind, fread_bytes, rret, swapb. change (4 <? 0) with false. cbv iota.
+  destruct s as [|b0 [|b1 [|b2 [|b3 r]]]]; try reflexivity.
+  cbn [take_z]. change (4 =? 0) with false. change (4 - 1 =? 0) with false. change (4 - 1 - 1 =? 0) with false. change (4 - 1 - 1 - 1 =? 0) with false.
+  change (4 - 1 - 1 - 1 - 1 =? 0) with true. cbv iota. destruct r; reflexivity.
+Qed.
+
+Lemma swap_noop_call ret args s vals cells s1 :
+  eval_args args s = Some (vals, cells, s1) -> List.length vals = 3%nat ->
+  finish_call ret prog_sbdf_swap_le cells s1 (callee_init prog_sbdf_swap_le vals cells s1) VUndef = Some s1 ->
+  bsE prog_env (SCall ret "sbdf_swap" args) s (ONormal s1).
+Proof.
+  intros Ha Hl Hf. eapply bsE_call_void; [reflexivity|exact Ha|exact Hl|apply bsE_skip|exact Hf].
+Qed.
+
+Lemma read_int32_bs fr pr fo po cell bv s o : Forall byte s ->
+  match read_int32 false s with
+  | Ok (x, s') => bsE prog_env (fbody prog_sbdf_read_int32) (ri fr pr fo po cell bv s o) (OReturn (VInt SBDF_OK) (ri fr pr fo po (VInt x) bv s' o))
+  | Err st => exists c' s', bsE prog_env (fbody prog_sbdf_read_int32) (ri fr pr fo po cell bv s o) (OReturn (VInt st) (ri fr pr fo po c' bv s' o))
+  end.
+Proof.
+  intros Hs. rewrite read_int32_model. cbn [fbody prog_sbdf_read_int32]. unfold ri.
+  destruct s as [|b0 [|b1 [|b2 [|b3 r]]]].
+  1-4: do 2 eexists; (eapply bsE_seq; [eapply bsE_if; [evi; reflexivity|reflexivity|apply bsE_skip]|]);
+       eapply bsE_seq_ret; (eapply bsE_if; [evi; reflexivity|reflexivity|]); eapply bsE_return; evi; chk7; evi; reflexivity.
+  assert (Hb : byte b0 /\ byte b1 /\ byte b2 /\ byte b3).
+  { inversion Hs as [|? ? G0 Q0]. inversion Q0 as [|? ? G1 Q1]. inversion Q1 as [|? ? G2 Q2]. inversion Q2 as [|? ? G3 Q3]. auto. }
+  destruct Hb as (G0 & G1 & G2 & G3). unfold byte in *.
+  assert (Ev : (b0 + 256 * b1 + 65536 * b2 + 16777216 * b3 + 2147483648) mod u32 - 2147483648 = de32 [b0; b1; b2; b3]).
+  { unfold de32, to_i32, u32. cbn [le_dec]. destruct (b0 + 256 * (b1 + 256 * (b2 + 256 * (b3 + 256 * 0))) <? 2147483648) eqn:E; lia. }
+  eapply bsE_seq; [eapply bsE_if; [evi; reflexivity|reflexivity|apply bsE_skip]|].
+  eapply bsE_seq; [eapply bsE_if; [evi; reflexivity|reflexivity|apply bsE_skip]|].
+  eapply bsE_seq; [eapply swap_noop_call; [evci; chk7; reflexivity|reflexivity|evci; reflexivity]|].
+  eapply bsE_return. evi. chk7. rewrite Ev. reflexivity.
+Qed.
+
+Definition wi (fr : region) (fo v B : Z) (o : list Z) : state :=
+  {| vars := [("f"%string, VPtr fr fo); ("v"%string, VInt v); (budget_var, VInt B)]; inb := []; outb := o |}.
+
+Lemma write_int32_bs fr fo v B o : int_min <= v <= int_max -> 0 <= B ->
+  bsE prog_env (fbody prog_sbdf_write_int32) (wi fr fo v B o)
+    (OReturn (VInt (if 4 <=? B then SBDF_OK else SBDF_ERROR_IO)) (wi fr fo v (B - zlen (ztake B (le32 v))) (o ++ ztake B (le32 v)))).
+Proof.
+  intros Hv HB. cbn [fbody prog_sbdf_write_int32]. unfold wi.
+  eapply bsE_seq; [eapply bsE_if; [evi; reflexivity|reflexivity|apply bsE_skip]|].
+  eapply bsE_seq; [eapply swap_noop_call; [evci; chk7; reflexivity|reflexivity|evci; reflexivity]|].
+  destruct (4 <=? B) eqn:EB.
+  - eapply bsE_seq; [eapply bsE_if; [evi; rewrite EB; evi; reflexivity|reflexivity|apply bsE_skip]|].
+    eapply bsE_cast_o; [eapply bsE_return; evi; chk7; reflexivity|].
+    rewrite (ztake_all (le32 v) B) by (cbn; lia). change (zlen (le32 v)) with 4. reflexivity.
+  - eapply bsE_seq_ret. eapply bsE_if; [evi; rewrite EB; evi; reflexivity|reflexivity|].
+    eapply bsE_cast_o; [eapply bsE_return; evi; chk7; reflexivity|].
+    assert (C : B = 0 \/ B = 1 \/ B = 2 \/ B = 3) by lia. destruct C as [->|[->|[->| ->]]]; reflexivity.
+Qed.
+
+Theorem read_int32_source s B : Forall byte s ->
+  exists f0, forall f, (f0 <= f)%nat ->
+  match read_int32 false s with
+  | Ok (x, s') => exists fin, callE prog_env f prog_sbdf_read_int32 [tok; tok] s B = OReturn (VInt SBDF_OK) fin /\
+                              lookup "*v" (vars fin) = Some (VInt x) /\ inb fin = s' /\ outb fin = []
+  | Err st => exists fin, callE prog_env f prog_sbdf_read_int32 [tok; tok] s B = OReturn (VInt st) fin /\ outb fin = []
+  end.
+Proof.
+  intros Hs. pose proof (read_int32_bs ROut ROut 0 0 VUndef (VInt B) s [] Hs) as H.
+  destruct (read_int32 false s) as [[x s']|st].
+  - destruct (bsE_sound _ _ _ _ H) as (f0 & F). exists f0. intros f Hf. eexists. split; [apply F; exact Hf|]. repeat split.
+  - destruct H as (c' & s1 & Bs). destruct (bsE_sound _ _ _ _ Bs) as (f0 & F). exists f0. intros f Hf. eexists. split; [apply F; exact Hf|]. reflexivity.
+Qed.
+
+Theorem write_int32_source v B : int_min <= v <= int_max -> 0 <= B ->
+  exists f0, forall f, (f0 <= f)%nat -> exists fin,
+    callE prog_env f prog_sbdf_write_int32 [tok; VInt v] [] B = OReturn (VInt (if 4 <=? B then SBDF_OK else SBDF_ERROR_IO)) fin /\
+    outb fin = ztake B (le32 v).
+Proof.
+  intros Hv HB. pose proof (write_int32_bs ROut 0 v B [] Hv HB) as Bs.
+  destruct (bsE_sound _ _ _ _ Bs) as (f0 & F). exists f0. intros f Hf. eexists. split; [apply F; exact Hf|]. reflexivity.
+Qed.
